@@ -15,7 +15,8 @@ SHARDS = {'quick': 16, 'thorough': 64}
 TIMEOUT = {'quick': 1500, 'thorough': 7200}
 MUST_HIT = ['Classify.input-accepted', 'Classify.input-rejected', 'Classify.build-ok',
             'Classify.build-rejected', 'ShadowLoader.compare', 'ShadowLoader.statements-unchanged',
-            'CpuBudget.guarded', 'Route.input', 'Route.file_input', 'Route.filename_input']
+            'CpuBudget.guarded', 'Route.input', 'Route.file_input', 'Route.filename_input',
+            'ShadowLoader.diagnostic-compared']
 MUST_REACH = ['xtuml/load.py:ModelLoader.t_error', 'xtuml/load.py:ModelLoader.p_error',
               'xtuml/load.py:deserialize_value', 'xtuml/load.py:ModelLoader.p_cardinality_many',
               'xtuml/load.py:ModelLoader.input', 'xtuml/load.py:ModelLoader.build_metamodel']
@@ -49,6 +50,9 @@ import random
 ROUTE_RNG = random.Random(12)     # which input method a text takes (independent of the text generator)
 
 
+LAST_ROUTE = ['input']
+
+
 def try_input(ctx, loader, text):
     '''-> (accepted, exception or None)'''
     import xtuml
@@ -66,6 +70,7 @@ def try_input(ctx, loader, text):
         except UnicodeError:
             pass
     ctx.hit('Route.' + route)
+    LAST_ROUTE[0] = route
     try:
         if route == 'input':
             loader.input(text)
@@ -107,7 +112,7 @@ def try_input(ctx, loader, text):
 
 
 def try_build(ctx, loader, texts):
-    '''-> ('ok', serialized) | ('rejected', exception type name) | None on violation'''
+    '''-> ('ok', serialized) | ('rejected', exception type name, message) | None on violation'''
     import xtuml
     ctx.guard(20, 'cpu-budget/build', dict(texts=texts))
     try:
@@ -117,7 +122,7 @@ def try_build(ctx, loader, texts):
     except (xtuml.ParsingException, xtuml.MetaException) as e:
         ctx.hit('Classify.build-rejected')
         ctx.unguard()
-        return ('rejected', type(e).__name__)
+        return ('rejected', type(e).__name__, str(e))
     except Exception as e:
         ctx.unguard()
         ctx.violation('build/%s@%s' % (type(e).__name__, innermost_repo_function(e, ctx.root)),
@@ -187,6 +192,7 @@ def sequences(ctx, rng, n):
         loader = xtuml.ModelLoader()
         accepted = []
         steps = []
+        plain = True
         for _ in range(rng.randint(2, 8)):
             kind, text = gen_text(rng)
             if rng.random() < 0.4:
@@ -198,8 +204,24 @@ def sequences(ctx, rng, n):
             if ok is None:
                 break
             steps.append((text, ok))
+            plain = plain and LAST_ROUTE[0] == 'input'
             if ok:
                 accepted.append(text)
+            elif LAST_ROUTE[0] == 'input' and exc is not None:
+                # the diagnostic of a rejected text is the one a loader without any history gives for it
+                ctx.hit('ShadowLoader.diagnostic-compared')
+                fresh = xtuml.ModelLoader()
+                try:
+                    fresh.input(text)
+                    other = None
+                except xtuml.ParsingException as e2:
+                    other = str(e2)
+                if other is not None and other != str(exc):
+                    ctx.violation('partial-application/diagnostic-differs',
+                                  'after %d inputs (%d rejected) a rejected text is reported as %r, a fresh loader '
+                                  'reports %r' % (len(steps) - 1, len(steps) - 1 - len(accepted), str(exc)[:200], other[:200]),
+                                  case=dict(steps=steps))
+                    break
             # differential replay: a fresh loader fed only the accepted texts
             ctx.hit('ShadowLoader.compare')
             shadow = xtuml.ModelLoader()
@@ -209,6 +231,9 @@ def sequences(ctx, rng, n):
             b = try_build(ctx, shadow, accepted)
             if a is None or b is None:
                 break
+            if not plain:
+                # texts that came in under a file name carry that name in their diagnostics
+                a, b = a[:2], b[:2]
             if a != b:
                 ctx.violation('partial-application/build-differs',
                               'after %d inputs (%d rejected) the build differs from a loader that saw only '
